@@ -65,6 +65,8 @@ def to_scenario(sched, sid):
             cur.append(_stim(op="bclose", n=e["n"]))
         elif op == "cclose":
             cur.append(_stim(op="cclose", c=e["c"]))
+        elif op in ("ndown", "nup"):
+            cur.append(_stim(op=op, n=e["n"]))
         elif op == "pause":
             # the client stops reading; a filler request on a node the model does not use is answered with a reply larger
             # than the kernel buffers, so that from now on what the proxy writes to this client parks in its outbound buffer
@@ -95,9 +97,10 @@ def cfg_for(pid):
         cfg["unowned"] = True
     if pid == "C16":
         cfg["timeoutMs"] = 3600000
-    if pid.endswith("p"):
+    if pid.endswith("p") and pid != "C15p":
         cfg["sockBuf"] = 65536      # client-side back-pressure: the kernel buffers must be small enough to fill
         cfg["masters"] = 4          # a fourth master (slot name D) that only the filler requests use
+    # (C15p: a node that goes off the network; nothing special about the configuration)
     return cfg
 
 
